@@ -63,6 +63,10 @@ func (t *TransactionManager) Confirm(id string) error {
 	if t.transaction == nil {
 		return fmt.Errorf("no ongoing transaction")
 	}
+	// the given id must refer to the ongoing transaction before it is touched
+	if _, err := t.GetTransaction(id); err != nil {
+		return err
+	}
 	err := t.transaction.Confirm()
 	if err != nil {
 		return err
@@ -75,6 +79,10 @@ func (t *TransactionManager) Cancel(ctx context.Context, id string) error {
 	defer t.tmMutex.Unlock()
 	if t.transaction == nil {
 		return fmt.Errorf("no ongoing transaction")
+	}
+	// the given id must refer to the ongoing transaction before it is touched
+	if _, err := t.GetTransaction(id); err != nil {
+		return err
 	}
 	rollbacktransAction := t.transaction.GetRollbackTransaction()
 
